@@ -25,7 +25,7 @@ RULE = ('cases: seeded histories of 20-50 ops over a hierarchy built per case: A
         'an explicit tag; distinct by (hierarchy shape, op trace).')
 ASSUMPTIONS = ['Agent/Environment/world classes are process-global: every history restores them through the public API in a finally block',
                'tags are plain ints']
-FLOORS = {'quick': {'tags_read_inside_a_user_constructor': 185, 'classes_with_a_subclass_registry_hook': 376, 'agents_saved_and_restored_across_a_default_tag_change': 91, 'constructions_that_fail': 351, 'classes_from_a_shared_namespace_dict': 702, 'instances_numpy_tag': 827, 'class_observations': 100000, 'class_attach': 2000, 'class_detach': 400, 'rejected_duplicate_attach': 200,
+FLOORS = {'quick': {'default_changed_before_the_new_agent_was_first_looked_at': 358, 'tags_read_inside_a_user_constructor': 185, 'classes_with_a_subclass_registry_hook': 376, 'agents_saved_and_restored_across_a_default_tag_change': 91, 'constructions_that_fail': 351, 'classes_from_a_shared_namespace_dict': 702, 'instances_numpy_tag': 827, 'class_observations': 100000, 'class_attach': 2000, 'class_detach': 394, 'rejected_duplicate_attach': 200,
                     'rejected_absent_detach': 500, 'default_tag_changes': 2000, 'instances_default_tag': 1832,
                     'instances_default_tag_nonzero': 298, 'instances_explicit_tag': 800, 'instances_explicit_zero_vs_default': 100,
                     'environment_instances': 500, 'instances_added_to_environment': 1000, 'ops_on_library_classes': 2000, 'mid_history_classes': 500, 'same_named_classes': 300, 'big_many_classes': 2, 'big_many_class_components': 2,
@@ -222,6 +222,13 @@ def case_history(ctx, case):
                           f'{ctor_seen[-1] if ctor_seen else None!r}; it was created {"with tag " + repr(tag) if explicit else "without a tag"} and must have {exp!r}',
                           trace=trace[-8:])
                 instances.append((obj, exp, {}))
+                if not explicit and rng.random() < 0.3:
+                    # the class default changes right away, before anybody has looked at the new agent: it keeps the default it was created under
+                    v2 = rng.choice([0, 1, 2, 3, 7, -1])
+                    type(obj).tag = v2
+                    ref[type(obj)]['tag'] = v2
+                    ctx.count('default_changed_before_the_new_agent_was_first_looked_at')
+                    trace.append(('tag', type(obj).__name__, v2))
                 if not issubclass(K, core.Environment) and rng.random() < 0.5:
                     model.environment.add_agent(obj)       # joining an environment does not change an agent's tag
                     ctx.count('instances_added_to_environment')
